@@ -171,7 +171,16 @@ def r2_associativity(ctx: Ctx) -> None:
                 for test, body in arms:
                     if any(x is c for b in body for x in ast.walk(b)):
                         t = unparse(test)
-                        ok = "TokenType.OPERATOR" in t and ("in ['-', '~']" in t or "in ('-', '~')" in t or "in {'-', '~'}" in t)
+                        members = None
+                        for cmp_ in ast.walk(test):
+                            if isinstance(cmp_, ast.Compare) and isinstance(cmp_.ops[0], ast.In) and unparse(cmp_.left).endswith(".value"):
+                                try:
+                                    from ..const import ConstEval
+                                    val = ConstEval(ctx.repo, pe.module).ev(cmp_.comparators[0])
+                                    members = set(val) if isinstance(val, (list, tuple, set, frozenset, str)) else None
+                                except AnalysisError:
+                                    members = None
+                        ok = "TokenType.OPERATOR" in t and members == {"-", "~"}
         ctx.check(ok, "_parse_expression:unary-classification", "an operator is prefix only at operand position and only for - and ~")
     ctx.count("assoc_facts", 6)
 
